@@ -3,10 +3,10 @@ package main
 // C09: merged EVENT and COUNT.  Histories for the driver in merge_driver.go:
 // up to four requests in flight; every child answers every request once, in the
 // order in which it received requests with that id; the replies are interleaved
-// at random.  In "overlap" histories a request may re-use an id that is still
-// in flight (the class in which the implementation is known to lose a reply,
-// finding K1); all other histories keep the ids of simultaneous requests
-// distinct, while ids are re-used one after the other.
+// at random.  In "overlap" histories (40%) a request may re-use an id that is
+// still in flight (the class of finding K1, repaired by per-child FIFO queues);
+// the other histories keep the ids of simultaneous requests distinct, while
+// ids are re-used one after the other.
 //
 // REQ traffic shares the id space with the requests: client REQ and CLOSE
 // messages (and child EOSEs) carry the ids of the EVENT and COUNT requests that
@@ -121,17 +121,28 @@ func c09Generate(r *common.Rand, overlap bool) mCase {
 			}
 		}
 		switch x := r.Intn(100); {
-		case x < 4: // an unsolicited (late, repeated) reply for an id nobody is waiting for
+		case x < 5: // an unsolicited (late, repeated) reply: nobody waits for the id, or not for this child
 			q := &c09Req{count: r.Chance(40)}
 			univ := append([]string{"x9"}, ids...)
 			if q.count {
 				univ = append([]string{"c9"}, subs...)
 			}
 			q.id = common.Pick(r, univ)
+			ch := r.Intn(n)
 			if inFlight(q.count, q.id) {
-				continue
+				// a surplus reply: only from a child that has answered every request in flight
+				// with this id (the reply is then dropped, like an unsolicited one)
+				surplus := true
+				for _, f := range flight {
+					if f.count == q.count && f.id == q.id && !f.replied[ch] {
+						surplus = false
+					}
+				}
+				if !surplus {
+					continue
+				}
 			}
-			c.Steps = append(c.Steps, mStep{K: "child", I: r.Intn(n), M: c09Reply(r, q)})
+			c.Steps = append(c.Steps, mStep{K: "child", I: ch, M: c09Reply(r, q)})
 			continue
 		case x < 22: // REQ traffic, mostly under the ids of the requests in flight
 			// the id: one of a request in flight (EVENT id or COUNT subscription id), one of
@@ -355,19 +366,8 @@ func init() {
 			}
 		} else {
 			root := common.NewRand(seed)
-			// the histories that re-use an id in flight (finding K1) are few and come last,
-			// so that a failure in the guarded class is always met (and reported) first
-			nOverlap := n / 100
-			if nOverlap < 8 {
-				nOverlap = 8
-			}
-			if nOverlap > 40 {
-				nOverlap = 40
-			}
-			if nOverlap > n {
-				nOverlap = n
-			}
-			firstOverlap := n - nOverlap
+			// 40% of the histories may re-use an id that is still in flight; they come last
+			firstOverlap := n - n*2/5
 			cases = append(cases, c09CloseInterleavings()...)
 			if n >= mergeExhaustiveFrom {
 				cases = append(cases, c09Exhaustive()...)
